@@ -3,7 +3,7 @@
    - permuting the definitions of a method by sigma renames the outcome of spec_dispatch /
      spec_next by sigma and changes nothing else.
    No axioms; stdlib only. *)
-From Y2 Require Import Model.Registry Spec.Dispatch Proofs.SpecAnc Proofs.SpecCore.
+From Y2 Require Import Model.Registry Spec.Dispatch Proofs.SpecAnc Proofs.SpecCore Proofs.SpecPresent.
 From Coq Require Import List NArith Arith Lia Bool Relations Permutation.
 Import ListNotations.
 
@@ -26,13 +26,9 @@ Qed.
 Lemma anc_perm_impl R R' :
   Permutation (r_classes R) (r_classes R') -> r_alias R = r_alias R' ->
   forall b d, anc R b d -> anc R' b d.
-Proof.
-  intros P A b d H. induction H as [x y H|x|x y z _ IH1 _ IH2].
-  - apply rt_step. eapply edge_perm_impl; eassumption.
-  - apply rt_refl.
-  - eapply rt_trans; eassumption.
-Qed.
+Proof. intros P A. apply anc_mono. now apply edge_perm_impl. Qed.
 
+(* an instance of extensionality in anc (SpecPresent.v, section AncExt) *)
 Section ClassPerm.
   Variables R R' : registry.
   Hypothesis Hcl : Permutation (r_classes R) (r_classes R').
@@ -42,9 +38,6 @@ Section ClassPerm.
   Proof.
     split; apply anc_perm_impl; auto; [now apply Permutation_sym].
   Qed.
-
-  Theorem ancb_perm b d : ancb R b d = ancb R' b d.
-  Proof. apply bool_eq_iff. rewrite !ancb_correct. apply anc_perm. Qed.
 
   Lemma registered_perm c : registered R c <-> registered R' c.
   Proof.
@@ -56,75 +49,55 @@ Section ClassPerm.
     - now rewrite (proj_alias R R' Hal).
   Qed.
 
+  Theorem ancb_perm b d : ancb R b d = ancb R' b d.
+  Proof. exact (ancb_anc_ext R R' anc_perm b d). Qed.
+
   Lemma registeredb_perm c : registeredb R c = registeredb R' c.
-  Proof. apply bool_eq_iff. rewrite !registeredb_correct. apply registered_perm. Qed.
+  Proof. exact (registeredb_anc_ext R R' registered_perm c). Qed.
 
   Lemma applicable_perm d args : applicable R d args <-> applicable R' d args.
-  Proof. unfold applicable. apply Forall2_iff_pointwise. apply anc_perm. Qed.
+  Proof. exact (applicable_anc_ext R R' anc_perm d args). Qed.
 
   Theorem applicableb_perm d args : applicableb R d args = applicableb R' d args.
-  Proof. apply bool_eq_iff. rewrite !applicableb_correct. apply applicable_perm. Qed.
+  Proof. exact (applicableb_anc_ext R R' anc_perm d args). Qed.
 
   Lemma proper_base_perm b d : proper_base R b d <-> proper_base R' b d.
-  Proof. unfold proper_base. rewrite anc_perm. reflexivity. Qed.
+  Proof. exact (proper_base_anc_ext R R' anc_perm b d). Qed.
 
   Theorem more_specific_perm a b : more_specific R a b <-> more_specific R' a b.
-  Proof.
-    unfold more_specific. split; intros [Hl [Hn [i [x [y [Hx [Hy Hp]]]]]]];
-      (split; [assumption|]); split.
-    - intros j u v Hu Hv Hq. apply (Hn j u v Hu Hv). now apply proper_base_perm.
-    - exists i, x, y. split; [assumption|]. split; [assumption|]. now apply proper_base_perm.
-    - intros j u v Hu Hv Hq. apply (Hn j u v Hu Hv). now apply proper_base_perm.
-    - exists i, x, y. split; [assumption|]. split; [assumption|]. now apply proper_base_perm.
-  Qed.
+  Proof. exact (more_specific_anc_ext R R' anc_perm a b). Qed.
 
   Theorem more_specificb_perm a b : more_specificb R a b = more_specificb R' a b.
-  Proof. apply bool_eq_iff. rewrite !more_specificb_correct. apply more_specific_perm. Qed.
+  Proof. exact (more_specificb_anc_ext R R' anc_perm a b). Qed.
 
   Lemma strictly_more_general_perm a b :
     strictly_more_general R a b <-> strictly_more_general R' a b.
-  Proof.
-    unfold strictly_more_general.
-    rewrite (Forall2_iff_pointwise (anc R) (anc R') anc_perm). reflexivity.
-  Qed.
+  Proof. exact (strictly_more_general_anc_ext R R' anc_perm a b). Qed.
 
   Lemma strictly_more_generalb_perm a b :
     strictly_more_generalb R a b = strictly_more_generalb R' a b.
-  Proof. unfold strictly_more_generalb. now rewrite applicableb_perm. Qed.
+  Proof. exact (strictly_more_generalb_anc_ext R R' anc_perm a b). Qed.
 
   Lemma dominant_class_perm defs cand i : dominant R defs cand i <-> dominant R' defs cand i.
-  Proof.
-    unfold dominant. split; intros [Hi D]; (split; [assumption|]); intros j Hj Hne;
-      apply more_specific_perm; auto.
-  Qed.
+  Proof. exact (dominant_anc_ext R R' anc_perm defs cand i). Qed.
 
   Lemma outcome_ok_class_perm defs cand o : outcome_ok R defs cand o <-> outcome_ok R' defs cand o.
-  Proof.
-    destruct o as [i| |]; cbn [outcome_ok].
-    - apply dominant_class_perm.
-    - reflexivity.
-    - split; intros [Hn H]; (split; [assumption|]); intros i D; apply (H i);
-        now apply dominant_class_perm.
-  Qed.
+  Proof. exact (outcome_ok_anc_ext R R' anc_perm defs cand o). Qed.
 
   (* same definitions, same candidates: same outcome *)
   Theorem spec_dispatch_among_class_perm defs cand :
     spec_dispatch_among R defs cand = spec_dispatch_among R' defs cand.
-  Proof.
-    apply spec_dispatch_among_iff. apply outcome_ok_class_perm. apply spec_dispatch_among_ok_gen.
-  Qed.
+  Proof. exact (spec_dispatch_among_anc_ext R R' anc_perm defs cand). Qed.
 
   Theorem spec_dispatch_class_perm defs args : spec_dispatch R defs args = spec_dispatch R' defs args.
-  Proof.
-    unfold spec_dispatch, applicable_idx. rewrite spec_dispatch_among_class_perm.
-    f_equal. apply filter_ext. intro i. apply applicableb_perm.
-  Qed.
+  Proof. exact (spec_dispatch_anc_ext R R' anc_perm defs args). Qed.
 
   Theorem spec_next_class_perm defs k : spec_next R defs k = spec_next R' defs k.
-  Proof.
-    unfold spec_next. rewrite spec_dispatch_among_class_perm.
-    f_equal. apply filter_ext. intro i. apply strictly_more_generalb_perm.
-  Qed.
+  Proof. exact (spec_next_anc_ext R R' anc_perm defs k). Qed.
+
+  Theorem legal_class_perm m m' args :
+    meth_vp R m = meth_vp R' m' -> (legal R m args <-> legal R' m' args).
+  Proof. exact (legal_anc_ext R R' anc_perm registered_perm m m' args). Qed.
 End ClassPerm.
 
 (* ---------------- permuting the definitions of a method ---------------- *)
